@@ -177,8 +177,8 @@ def ctor_field_value(F, v):
                     if st["k"] == "assign" and st["pl"]["l"] == 0 and not st["pl"]["p"] and st["rv"]["k"] == "agg" and st["rv"].get("ak") == "adt" \
                             and v[2] in (st["rv"].get("fields") or []):
                         vals.append(cb.value(st["rv"]["ops"][st["rv"]["fields"].index(v[2])]))
-            if len(vals) == 1 and vals[0][0] == "const":
-                return vals[0]
+            if len(vals) == 1 and (vals[0][0] == "const" or (vals[0][0] == "call" and not vals[0][2])):
+                return vals[0]      # a constant, or a fresh value from a constructor without arguments (the same in every context)
     return v
 
 
